@@ -23,6 +23,7 @@ package main
 
 import (
 	"fmt"
+	"os"
 	"runtime"
 	"sort"
 	"strconv"
@@ -394,6 +395,11 @@ func c12Exec(payload string) string {
 	if len(f) != 5 {
 		return "bad-payload"
 	}
+	// every deadlocked case costs the full time bound: after a few of them (recorded in the
+	// working directory of this run) the remaining cases are not executed any more
+	if b, err := os.ReadFile("c12.deadlocks"); err == nil && strings.Count(string(b), "\n") >= 3 {
+		return "SKIPPED after repeated deadlocks"
+	}
 	mode := f[0]
 	threads, _ := strconv.Atoi(f[1])
 	iters, _ := strconv.Atoi(f[2])
@@ -517,15 +523,41 @@ func c12Exec(payload string) string {
 
 	allDone := make(chan struct{})
 	go func() { wg.Wait(); close(allDone) }()
+	// deadlock = no progress at all (no new trace event, nothing finished, no rendezvous) for
+	// c12Bound; a slow machine makes a case slow but never stops its progress
 	deadlock := false
-	select {
-	case <-allDone:
-	case <-time.After(c12Bound):
-		deadlock = true
+	progress := func() int {
+		run.mu.Lock()
+		n := len(run.trace)
+		run.mu.Unlock()
+		doneMu.Lock()
+		n += doneN
+		doneMu.Unlock()
 		run.meetMu.Lock()
-		run.abort = true
-		run.meetC.Broadcast()
+		n += run.pairs
 		run.meetMu.Unlock()
+		return n
+	}
+	last, lastAt := progress(), time.Now()
+	tick := time.NewTicker(100 * time.Millisecond)
+	defer tick.Stop()
+wait:
+	for {
+		select {
+		case <-allDone:
+			break wait
+		case <-tick.C:
+			if p := progress(); p != last {
+				last, lastAt = p, time.Now()
+			} else if time.Since(lastAt) > c12Bound {
+				deadlock = true
+				run.meetMu.Lock()
+				run.abort = true
+				run.meetC.Broadcast()
+				run.meetMu.Unlock()
+				break wait
+			}
+		}
 	}
 
 	run.mu.Lock()
@@ -554,16 +586,25 @@ func c12Exec(payload string) string {
 	}
 	if deadlock {
 		// stuck goroutines cannot be stopped: report and let the parent restart the process
-		panic("DEADLOCK " + res + " T=" + trace)
+		if fh, err := os.OpenFile("c12.deadlocks", os.O_APPEND|os.O_CREATE|os.O_WRONLY, 0644); err == nil {
+			fmt.Fprintln(fh, payload)
+			fh.Close()
+		}
+		if os.Getenv("C12_STACKS") != "" {
+			buf := make([]byte, 1<<20)
+			os.WriteFile(os.Getenv("C12_STACKS"), buf[:runtime.Stack(buf, true)], 0644)
+		}
+		// (the text of a recovered panic is cut to 200 characters: no trace here)
+		panic("DEADLOCK " + res)
 	}
 	return res + " T=" + trace
 }
 
-var c12Bound = 8 * time.Second
+var c12Bound = 6 * time.Second
 
 func init() {
 	register("C12", &Prop{
-		Timeout: 20 * time.Second,
+		Timeout: 300 * time.Second,
 		Setup:   c12Setup,
 		Run:     c12Exec,
 		Tool:    c12Tool,
@@ -595,9 +636,9 @@ func init() {
 			emit("D", 16, 10, "ae()")
 			emit("S", 16, 10, "ae(ae^())")
 
-			n := 60
+			n := 250
 			if g.Thorough() {
-				n = 1500
+				n = 4000
 			}
 			for i := 0; i < n; i++ {
 				threads := 2 + g.R.Intn(15)
